@@ -446,7 +446,7 @@ def write_cfg(name, base, invs, props, extra=""):
     return p
 
 
-def validate_traces(report, module, base_cfg, traces, invs, props, tag, driver, env=None):
+def validate_traces(report, module, base_cfg, traces, invs, props, tag, driver, env=None, timeout=1500):
     """Run a trace specification over a batch of recorded traces (one TLC initial state per
     trace).  Returns True iff every trace was accepted; the first rejection is reported as a
     violation with the trace prefix as replay."""
@@ -459,7 +459,7 @@ def validate_traces(report, module, base_cfg, traces, invs, props, tag, driver, 
     e = {"TRACE_FILE": path}
     if env:
         e.update(env)
-    r = run_tlc(module, cfg, env=e, workers=16, tag=tag)
+    r = run_tlc(module, cfg, env=e, workers=16, tag=tag, timeout=timeout)
     os.unlink(path)
     n_events = sum(len(t["events"]) for t in traces)
     report.cov["states"] += r.distinct
